@@ -11,4 +11,7 @@ MCTarget3 == MCTarget2
 \* fourth topology: as the first, but the lock counts its balls by an entrance switch and holds them (ball_hold)
 MCCap4 == MCCap
 MCTarget4 == MCTarget
+\* fifth: the first topology inside a running game with an unlimited ball save (eject_delay 2 s) and add-a-ball requests
+MCCap5 == MCCap
+MCTarget5 == MCTarget
 =============================================================================
